@@ -79,6 +79,32 @@ variable (p : Prog) (x : Ext) (cb : List Stmt → St → R (Flow × St))
       | "*", w => pure (w, r.2)
       | _, _ => .stuck ("unary " ++ op)) := by
   rw [evalE] <;> rfl
+@[gomini] theorem evalE_slice_from (n : Nat) (e lo : Expr) (st : St) :
+    evalE p x cb (n+1) (.slice e (some lo) none) st = (evalE p x cb n e st >>= fun r =>
+      match asList r.1 with
+      | none => .stuck "slice of non-list"
+      | some xs => evalE p x cb n lo r.2 >>= fun r2 =>
+        match r2.1 with
+        | .int l => if 0 ≤ l ∧ l ≤ (xs.length : Int) ∧ (xs.length : Int) ≤ xs.length then pure (.list ((xs.take (xs.length : Int).toNat).drop l.toNat), r2.2) else .panic
+        | _ => .stuck "slice bound") := by
+  rw [evalE]
+  simp only [R.bind, bind, pure]
+  cases evalE p x cb n e st with
+  | panic => rfl
+  | stuck w => rfl
+  | ok r =>
+    obtain ⟨v, st1⟩ := r
+    simp only
+    cases asList v with
+    | none => rfl
+    | some xs =>
+      simp only
+      cases evalE p x cb n lo st1 with
+      | panic => rfl
+      | stuck w => rfl
+      | ok r2 =>
+        obtain ⟨lv, s2⟩ := r2
+        cases lv <;> rfl
 @[gomini] theorem evalE_lit (n : Nat) (fs : List (String × Expr)) (st : St) :
     evalE p x cb (n+1) (.lit fs) st = (evalFields (evalE p x cb n) fs st >>= fun r => pure (.struct r.1, r.2)) := by
   rw [evalE] <;> rfl
